@@ -42,7 +42,7 @@ pub fn build_rev<S: BuildHasher, E: OnEvictCallback>(a: &Abs, hasher: S, cb: Opt
 // ------------------------------------------------------------------ drop-tracked payloads (C04 ghost state)
 
 /// every key and value object carries an id; dropping it bumps DROPS[id]
-pub const IDS: usize = 32;
+pub const IDS: usize = 12;
 static mut DROPS: [u8; IDS] = [0; IDS];
 
 pub fn drops(id: u8) -> u8 {
@@ -114,13 +114,13 @@ pub fn conserved(created: u32, retained: u32) -> bool {
     ok
 }
 
-/// arbitrary list view for tracked payloads: key ids below 16, value ids in 16..32, value ids distinct
+/// arbitrary list view for tracked payloads: key ids below 6, value ids in 6..12, value ids distinct
 pub fn any_tracked_abs(maxcap: usize, mincap: usize) -> Abs {
     let a = any_abs(maxcap, mincap);
     let mut i = 0;
     while i < NMAX {
         if i < a.n {
-            kani::assume(a.k[i] < 16 && a.v[i] >= 16 && a.v[i] < 32);
+            kani::assume(a.k[i] < 6 && a.v[i] >= 6 && a.v[i] < 12);
             let mut j = 0;
             while j < i {
                 kani::assume(a.v[i] != a.v[j]);
